@@ -88,4 +88,17 @@ theorem C01_physical_frames_balanced (m : FVMesh ℝ) (fixed : ℕ → Bool) (tp
   rw [hj]
   exact C01_physical_run_balanced m fixed tp U solve eps gamma u mb o hsolve s0 j (hans j)
 
+/-- non-vacuity of `SolvesPoisson`: on the two-site mesh with one edge (no boundary edges, so no injection) the solve
+    "ground site 0, put the right-hand side of site 0 on site 1" answers every Poisson problem that arises, for every link
+    variable — the hypothesis of the theorems above is met by a concrete mesh and solver -/
+example (U : ℕ → Cx ℝ) :
+    SolvesPoisson (⟨2, 1, fun _ => 0, fun _ => 1, fun _ => 1, fun _ => 1, fun _ => 1, 0, fun _ => 0⟩ : FVMesh ℝ) U (fun _ => 0)
+      (fun rhs r => if r = 0 then 0 else rhs 0) := by
+  intro psi r hr
+  have hr' : r = 0 ∨ r = 1 := by
+    simp only at hr
+    omega
+  rcases hr' with rfl | rfl <;>
+    simp [lapRow, poissonRhs, divRow, neuRow, sumTo, FVMesh.w]
+
 end Tdgl.C01
